@@ -6,7 +6,6 @@ package c16
 
 import (
 	"fmt"
-	"os"
 	"sync"
 	"testing"
 	"time"
@@ -360,5 +359,5 @@ func TestCheck(t *testing.T) {
 	}
 	h.Parallel(len(pols), 16, func(i int) { run(r, i, pols[i]) })
 	r.Count("streams", int64(len(pols)))
-	os.Exit(r.Finish(50))
+	h.Exit(r.Finish(50))
 }
